@@ -108,6 +108,9 @@ def gen_subs(rng, nmax=1, reenter=False, done_raise=False, provide=None):
     subs = [{} for _ in range(n)]
     if provide is not None:
         subs[rng.randrange(n)]['provide_size'] = provide
+    if rng.random() < 0.12:
+        # callbacks bound on the instance of a plain BaseSubscriber
+        subs[rng.randrange(n)]['adapter'] = True
     if reenter and rng.random() < 0.6:
         s = subs[rng.randrange(n)]
         where = rng.choice(['queued', 'progress', 'done'])
@@ -132,6 +135,10 @@ def gen_transfer(rng, cfg, types, nsubs=1, reenter=False, maxsize=40,
                 spec['duck'] = True     # no seekable()/readable(): probed by seek/tell
             if rng.random() < 0.25:
                 spec['short_seekable'] = True
+            if not spec.get('duck') and rng.random() < 0.15:
+                # a stream layered over an OS file (gzip-like): fileno() names a
+                # file whose size has nothing to do with the stream's length
+                spec['wrapped'] = True
         if spec['src'] == 'nonseekable':
             spec['short_src'] = rng.random() < 0.25
         if rng.random() < provide_prob:
